@@ -59,7 +59,8 @@ theorem C10.step_read_node (n : Node) (line : String) (h : DriverE.isRead line =
     (DriverE.step n line).1 = n := by
   unfold DriverE.isRead DriverE.opOf at h
   simp only [Bool.or_eq_true, beq_iff_eq] at h
-  unfold DriverE.step
+  show (DriverE.stepCore n line).1 = n
+  unfold DriverE.stepCore
   rcases h with h | h <;> simp only [h] <;> rfl
 
 /-- answers of the non-read lines of a history, in order -/
